@@ -278,7 +278,7 @@ CONTEXTS = ['@\n', '(assert @)\n', DECLS + '(assert @)\n',
 def plan(tier, seed=0):
     units = []
     depth = 3 if tier == 'thorough' else 2
-    cap = 2500 if tier == 'thorough' else 120
+    cap = 800 if tier == 'thorough' else 120
     for name, text in seeds.seeds(tier, seed):
         c = cap if len(text) < 160 else max(25, cap * 160 // len(text))
         units.append(('graph', name, text, depth, c))
